@@ -178,6 +178,8 @@ impl GateCtl {
 
 // ---------------------------------------------------------------------------------------------
 pub struct Conn {
+    /// the peer announced no identity or an empty one: the socket must assign a fresh unique identity
+    pub auto_ident: bool,
     pub to_lib: H,
     pub from_lib: H,
     pub scanned: usize,
@@ -242,8 +244,19 @@ pub async fn drive_catch<F: Future + ?Sized>(f: &mut Pin<Box<F>>, w: &Arc<CountW
     }
 }
 
+/// frame notation in scripts: plain hex, or "~<len>:<fill byte hex>:<prefix hex>" = prefix followed by fill bytes up to len
 fn hexs(v: &Value) -> Vec<u8> {
-    rc::unhex(v.as_str().unwrap_or(""))
+    let s = v.as_str().unwrap_or("");
+    if let Some(rest) = s.strip_prefix('~') {
+        let mut it = rest.splitn(3, ':');
+        let len: usize = it.next().and_then(|x| x.parse().ok()).unwrap_or(0);
+        let fill = it.next().map(rc::unhex).and_then(|b| b.first().copied()).unwrap_or(b'.');
+        let mut b = rc::unhex(it.next().unwrap_or(""));
+        b.resize(len.max(b.len()), fill);
+        b.truncate(len);
+        return b;
+    }
+    rc::unhex(s)
 }
 pub fn frames_of(v: &Value) -> Vec<Vec<u8>> {
     v.as_array().map(|a| a.iter().map(hexs).collect()).unwrap_or_default()
@@ -297,10 +310,10 @@ impl Env {
         for c in ids {
             let (tap, scanned) = {
                 let k = &self.conns[&c];
-                (k.from_lib.tap(), k.scanned)
+                (k.from_lib.tap_from(k.scanned), k.scanned)
             };
-            if tap.len() > scanned {
-                let p = rc::parse(&tap[scanned..], scanned == 0);
+            if !tap.is_empty() {
+                let p = rc::parse(&tap, scanned == 0);
                 for it in &p.items {
                     match it {
                         rc::WItem::Greeting(_) => self.ev(json!({"ev":"wire","c":c,"k":"greeting"})),
@@ -386,7 +399,8 @@ impl Env {
                 if let Some(k) = op.get("wbreak").and_then(|v| v.as_str()) {
                     from_lib.break_pipe(kind_of(k));
                 }
-                self.conns.insert(c, Conn { to_lib: to_lib.clone(), from_lib: from_lib.clone(), scanned: 0, attached: false, ident: None, rel_logged: (false, false) });
+                let auto_ident = op.get("ident").and_then(|v| v.as_str()).map(|s| s.is_empty()).unwrap_or(true);
+                self.conns.insert(c, Conn { auto_ident, to_lib: to_lib.clone(), from_lib: from_lib.clone(), scanned: 0, attached: false, ident: None, rel_logged: (false, false) });
                 let fut: BoxFut<'static, ZmqResult<PeerIdentity>> = Box::pin(zeromq::__verif::attach(self.backend.clone(), R(to_lib), W(from_lib)));
                 self.attaching.insert(c, Pending { fut, waker: CountWaker::new(), polls: 0, seen_wakes: 0 });
                 self.ev(json!({"ev":"attach_call","c":c,"ptype":op.get("ptype").cloned().unwrap_or(Value::Null),"ident":op.get("ident").cloned().unwrap_or(Value::Null)}));
@@ -548,7 +562,8 @@ impl Env {
                     k.attached = true;
                     k.ident = Some(idb.clone());
                 }
-                self.ev(json!({"ev":"attach_ret","c":c,"res":"ok","id":rc::fdesc(&idb),"idhex":rc::hex(&idb),"polls":p.polls}));
+                let auto = self.conns.get(&c).map(|k| k.auto_ident).unwrap_or(false);
+                self.ev(json!({"ev":"attach_ret","c":c,"res":"ok","id":rc::fdesc(&idb),"idhex":rc::hex(&idb),"polls":p.polls,"auto":auto}));
             }
             Driven::Done(Err(e)) => {
                 let (k, _) = errkind(&e);
@@ -598,8 +613,14 @@ pub async fn run_scenario(sc: &Value) -> Vec<Value> {
                 }
                 None => None,
             },
-            "send" => {
-                let frames = frames_of(&op["m"]);
+            "send" | "send_to" => {
+                let mut frames = frames_of(&op["m"]);
+                if name == "send_to" {
+                    // address the message to the identity connection c was registered under
+                    let c = op.get("c").and_then(|v| v.as_i64()).unwrap_or(0);
+                    let id = env.conns.get(&c).and_then(|k| k.ident.clone()).unwrap_or_else(|| b"no-such-connection".to_vec());
+                    frames.insert(0, id);
+                }
                 let d = rc::mdesc(&frames);
                 match sock.send(to_msg(&frames)) {
                     Some(f) => {
